@@ -156,32 +156,6 @@ theorem c02_identity_decoded (token : Str) (raw : List (Str × Str)) (auth : Opt
   simp only [decodeIdentity, hget]
   rw [hn]; rfl
 
-theorem map_id_of_forall {α : Type} (l : List α) (f : α → α) (h : ∀ x ∈ l, f x = x) : l.map f = l := by
-  induction l with
-  | nil => rfl
-  | cons x l ih => simp [h x (by simp), ih (fun y hy => h y (by simp [hy]))]
-
-theorem carryIdentity_id (up : Bool) (id : Identity) (h : valuesCarried up id = true) : carryIdentity up id = id := by
-  simp only [valuesCarried, Bool.and_eq_true, beq_iff_eq, List.all_eq_true] at h
-  obtain ⟨⟨h1, h2⟩, h3⟩ := h
-  have hg : id.groups.map (carried up) = id.groups := map_id_of_forall _ _ h2
-  have he : id.extra.map (fun e => (e.1, e.2.map (carried up))) = id.extra := by
-    apply map_id_of_forall
-    intro e he
-    have := map_id_of_forall e.2 (carried up) (h3 e he)
-    rw [this]
-  cases id
-  simp_all [carryIdentity]
-
-theorem lowerKeys_id (id : Identity) (h : extraKeysLower id = true) : lowerKeys id = id := by
-  simp only [extraKeysLower, List.all_eq_true] at h
-  have he : id.extra.map (fun e => (toLower e.1, e.2)) = id.extra := by
-    apply map_id_of_forall
-    intro e he
-    rw [toLower_id_of_noUpper e.1 (by simpa using h e he)]
-  cases id
-  simp_all [lowerKeys]
-
 /-- **Identity exactness.** If no extra key of the identity to act as contains an upper-case ASCII letter and every
     value is one the wire carries unchanged (no white space at its ends; on the upgrade path no CR / LF), the upstream
     reconstructs exactly that identity: the name, the groups in order, and for every key the extra values in order. -/
@@ -209,16 +183,6 @@ theorem c02_identity_exact (token : Str) (raw : List (Str × Str)) (auth : Optio
   rw [this, h1e, h2e]
 
 /-! ## the judge accepts the model -/
-
-/-- what the upstream received, as the judge takes it -/
-def upstreamOf : Outcome → List Headers
-  | .forwarded recv _ => [recv]
-  | _ => []
-
-theorem multimapAgree_of_values (a b : Headers) (h : ∀ k, values a k = values b k) : multimapAgree a b = true := by
-  simp only [multimapAgree, List.all_eq_true, beq_iff_eq]
-  intro e _
-  rw [h]
 
 /-- For every request, the judge applied to the model's output reports nothing but the two recorded limitations of the
     wire format (never a forwarded denial, a foreign `Authorization`, a client `Impersonate-*` header, or another identity). -/
@@ -297,6 +261,43 @@ theorem c02_judge_model_exact (token : Str) (raw : List (Str × Str)) (auth : Op
     simp only [upstreamOf, judge]
     split <;> simp
 
+/-- **Non-interference.** Two requests forwarded for the same identity deliver the same values under every identity
+    bearing name, whatever else the two clients sent. -/
+theorem c02_client_headers_do_not_matter (token : Str) (raw₁ raw₂ : List (Str × Str)) (auth₁ auth₂ : Option Identity)
+    (az₁ az₂ : ImpReq → Decision) (up : Bool) (recv₁ recv₂ : Headers) (ctx : Identity)
+    (h₁ : serve token raw₁ auth₁ az₁ up = .forwarded recv₁ ctx) (h₂ : serve token raw₂ auth₂ az₂ up = .forwarded recv₂ ctx)
+    (n : Str) (hn : isIdentityName n = true) : values recv₁ n = values recv₂ n := by
+  rw [c02_no_client_identity_header token raw₁ auth₁ az₁ up recv₁ ctx h₁ n hn,
+    c02_no_client_identity_header token raw₂ auth₂ az₂ up recv₂ ctx h₂ n hn]
+
+/-! ## the judge only looks at identity bearing headers (the harness records only those) -/
+
+/-- judging the identity bearing part of what was received = judging everything that was received -/
+theorem c02_judge_identity_part (token : Str) (up : Bool) (id : Identity) (recv : Headers) :
+    judgeForward token up id (recv.filter (fun e => isIdentityName e.1)) = judgeForward token up id recv := by
+  have h1 : (recv.filter (fun e => isIdentityName e.1)).filter (fun e => hasPrefix e.1 hImpPrefix) =
+      recv.filter (fun e => hasPrefix e.1 hImpPrefix) := by
+    rw [List.filter_filter]
+    congr 1
+    funext e
+    by_cases hp : hasPrefix e.1 hImpPrefix = true
+    · simp [hp, imp_isIdentityName hp]
+    · simp [hp]
+  have h2 : ∀ (q : Str × List Str → Bool),
+      (recv.filter (fun e => isIdentityName e.1)).any (fun e => hasPrefix e.1 hImpPrefix && q e) =
+      recv.any (fun e => hasPrefix e.1 hImpPrefix && q e) := by
+    intro q
+    rw [List.any_filter]
+    congr 1
+    funext e
+    by_cases hp : hasPrefix e.1 hImpPrefix = true
+    · simp [hp, imp_isIdentityName hp]
+    · simp [hp]
+  have h3 : decodeIdentity (recv.filter (fun e => isIdentityName e.1)) = decodeIdentity recv := by
+    simp only [decodeIdentity, hget, values_identityPart recv hImpUser (by decide),
+      values_identityPart recv hImpGroup (by decide), decodeExtras_identityPart]
+  simp only [judgeForward, values_identityPart recv hAuthorization (by decide), h1, h2, h3]
+
 /-! ## regenerated facts -/
 
 /-- `impersonateHeaderPrefix` (regenerated) is the family prefix of the three header names the filter knows -/
@@ -359,5 +360,52 @@ example : (match serve exToken [] (some ⟨[97, 108, 105, 99, 101], [[32, 103]],
 
 example : extraKeysLower ⟨[97, 108, 105, 99, 101], [], [([83, 99, 111, 112, 101, 115], [[118, 105, 101, 119]])]⟩ = false ∧
     valuesCarried false ⟨[97, 108, 105, 99, 101], [[32, 103]], []⟩ = false := by decide +kernel
+
+/-! ## the full statement, its refutation on this tree, and the partial theorem (AGENT_GUIDE §6)
+
+The two recorded findings (`findings/C02-extra-key-case`, `findings/C02-value-not-carried`) are exactly the distance
+between the property at full strength and what holds of the code. -/
+
+/-- The property at full strength: whatever is forwarded, the upstream reconstructs EXACTLY the identity to act as,
+    for every identity (arbitrary bytes in names, groups, extra keys and values). -/
+def C02FullExactness : Prop :=
+  ∀ (token : Str) (raw : List (Str × Str)) (auth : Option Identity) (az : ImpReq → Decision) (up : Bool)
+    (recv : Headers) (ctx : Identity), serve token raw auth az up = .forwarded recv ctx →
+    (decodeIdentity recv).name = ctx.name ∧ (decodeIdentity recv).groups = ctx.groups ∧
+    ∀ k, values (decodeIdentity recv).extra k = values ctx.extra k
+
+/-- alice with the extra `Scopes = [view]` -/
+def exScopes : Identity := ⟨[97, 108, 105, 99, 101], [], [([83, 99, 111, 112, 101, 115], [[118, 105, 101, 119]])]⟩
+/-- alice in the group `" g"` (leading space) -/
+def exEdge : Identity := ⟨[97, 108, 105, 99, 101], [[32, 103]], []⟩
+
+def recvOf (o : Outcome) : Headers := match o with | .forwarded r _ => r | _ => []
+
+/-- refutation by the witness of `findings/C02-extra-key-case`: the key `Scopes` arrives as `scopes` -/
+theorem c02_full_exactness_false : ¬ C02FullExactness := by
+  intro h
+  have hs : serve exToken [] (some exScopes) (fun _ => .allow) false =
+      .forwarded (recvOf (serve exToken [] (some exScopes) (fun _ => .allow) false)) exScopes := by decide +kernel
+  have := (h _ _ _ _ _ _ _ hs).2.2 [83, 99, 111, 112, 101, 115]
+  revert this
+  decide +kernel
+
+/-- refutation by the witness of `findings/C02-value-not-carried`: the group `" g"` arrives as `"g"` -/
+theorem c02_full_exactness_false_values : ¬ C02FullExactness := by
+  intro h
+  have hs : serve exToken [] (some exEdge) (fun _ => .allow) false =
+      .forwarded (recvOf (serve exToken [] (some exEdge) (fun _ => .allow) false)) exEdge := by decide +kernel
+  have := (h _ _ _ _ _ _ _ hs).2.1
+  revert this
+  decide +kernel
+
+/-- the partial theorem: the full statement restricted by the two decidable hypotheses (= `c02_identity_exact`) -/
+theorem c02_full_exactness_partial (token : Str) (raw : List (Str × Str)) (auth : Option Identity)
+    (az : ImpReq → Decision) (up : Bool) (recv : Headers) (ctx : Identity)
+    (h : serve token raw auth az up = .forwarded recv ctx)
+    (hk : extraKeysLower ctx = true) (hc : valuesCarried up ctx = true) :
+    (decodeIdentity recv).name = ctx.name ∧ (decodeIdentity recv).groups = ctx.groups ∧
+    ∀ k, values (decodeIdentity recv).extra k = values ctx.extra k :=
+  c02_identity_exact token raw auth az up recv ctx h hk hc
 
 end KG.Props.C02
